@@ -1,4 +1,4 @@
 SPECIFICATION Spec
-CONSTANTS Deep = TRUE
+CONSTANTS Deep = TRUE Which = {1, 2, 3, 4}
 INVARIANTS InvBoundary InvMean InvSym InvSep InvPad
 CHECK_DEADLOCK FALSE
